@@ -34,7 +34,7 @@ SHAPE_AGNOSTIC = {"exp", "tanh", "logtanh", "leakyrelu", "sigmoid", "logit", "ca
 def gen_cases(tier, seed):
     rng = np.random.default_rng(seed + 33)
     cases = []
-    nrand = 2 if tier == "quick" else 10
+    nrand = 2 if tier == "quick" else 40
     for fam in zoo.ALL_FAMS:
         cfgs = zoo.configs([fam], tier, seed + 9, nrand)
         for ci, cfg in enumerate(cfgs):
@@ -45,11 +45,11 @@ def gen_cases(tier, seed):
                 cases.append({"kind": "transform", "cfg": cfg, "policy": pol, "mode": mode,
                               "seed": env.subseed(seed, "c13", fam, ci, mode), "world": "f64",
                               "cost": 8 if "umnn" in fam else 2})
-    for i in range(40 if tier == "quick" else 300):
+    for i in range(40 if tier == "quick" else 1000):
         for mode in ("eval", "train"):
             cases.append({"kind": "flow", "cfg": dzoo.sample_flow_cfg(rng), "mode": mode, "seed": env.subseed(seed, "c13f", i, mode),
                           "world": "f64", "cost": 4})
-    for i in range(30 if tier == "quick" else 200):
+    for i in range(30 if tier == "quick" else 600):
         cases.append({"kind": "dist", "cfg": dzoo.sample_dist_cfg(rng), "mode": "eval" if i % 2 else "train",
                       "seed": env.subseed(seed, "c13d", i), "world": "f64", "cost": 1})
     return cases
